@@ -5,7 +5,8 @@ proof   rocq/Props/C12.v (lookup = latest value in force, start date inclusive, 
 tie     translator (Gen/Regimes.v = what the code registers now) + exhaustive correspondence Go vs extracted
         model: every regime x category x rate key x qualifier context x {start-1, start, start+1, fixed and
         random dates}, through RateDef.Value, tax.TotalCalculator (Combo.prepareRate) and a calculated
-        bill.Invoice (issue_date and value_date); synthetic tables (tags, extensions, invalid dates).
+        bill.Invoice / Order / Delivery (issue_date and value_date; and with every OTHER date field the
+        document type has set to the far side of the boundary); synthetic tables (tags, extensions, invalid dates).
 P       (python, from the published data/regimes/*.json, independent of the model) Go's percentage and
         surcharge are those of the applicable value with the latest start date on or before the date, of the
         rate whose key is the combo's key or the FIRST `+` component of it (no such rate: invalid-rate).
@@ -237,6 +238,21 @@ def gen_table_cases(c, regs, quick):
                             for kind in (0, 3, 5):
                                 cases.append(dict(stream="tables-decoys", op="invoice", kind=kind, cc=cc, cat=cat["code"], key=rt["key"],
                                                   d=d, tags=tags, ext=ext, boundary=d in starts, decoys=others))
+                # the same documents with EVERY other date they can carry (operation, despatch, receive, delivery,
+                # period, due, advance, reference dates ...: whatever date fields the Go type has) set to a date on
+                # the other side of the boundary: the tax date is the value date or the issue date, nothing else
+                for tags, ext in contexts_of(vals):
+                    pairs = []
+                    for s in starts:
+                        pairs += [(s, shift(s, -1)), (shift(s, -1), s)]
+                    pairs += [((2026, 10, 1), (1900, 1, 1)), ((1900, 1, 1), (2026, 10, 1))]
+                    if starts:
+                        pairs.append((starts[-1], shift(starts[-1], rng.randrange(-20000, -1))))
+                        pairs.append((shift(starts[0], rng.randrange(0, 20000)), shift(starts[0], -rng.randrange(1, 20000))))
+                    for d, other in pairs:
+                        for kind in range(6):
+                            cases.append(dict(stream="tables-otherdates", op="invoice", kind=kind, cc=cc, cat=cat["code"], key=rt["key"],
+                                              d=d, tags=tags, ext=ext, boundary=d in starts, other=other))
                 # extended keys (Key.HasPrefix path: defined first component + free suffix), keys whose first
                 # component is NOT a rate (undefined word first, another rate's suffix first) and unknown keys,
                 # one boundary date each
@@ -367,9 +383,12 @@ def go_ext_of(case, n):
 
 def line_of(case, mode, for_go=False):
     l = case_line(case["op"], mode, case["cc"], case["cat"], case["key"], case["d"], case["tags"], case["ext"], case["kind"])
-    if for_go and case.get("decoys"):
+    if for_go and (case.get("decoys") or case.get("other")):
         # further rows of the same document in other contexts (Go only: the model states what ONE combo receives)
-        l += " " + w([ext_w(e) for e in case["decoys"]])
+        l += " " + w([ext_w(e) for e in case.get("decoys") or []])
+        if case.get("other"):
+            # the date of every other date field of the document (Go only: the model is given the tax date)
+            l += " " + w(list(case["other"]))
     return l
 
 
@@ -404,6 +423,8 @@ def load_corpus():
             if f.endswith(".json"):
                 for x in json.load(open(os.path.join(d, f)))["cases"]:
                     x = dict(x, stream="corpus", d=tuple(x["d"]), tags=tuple(x["tags"]), boundary=True)
+                    if x.get("other"):
+                        x["other"] = tuple(x["other"])
                     cases.append(x)
     return cases
 
@@ -457,6 +478,16 @@ def run(c):
     m0 = run_oracle(lines0)
     known_hits, viol = [], []
     ngo_eq_shipped = 0
+    other_fields = {}           # document type -> top-level fields under which the harness found and set other dates
+    for x, g in zip(cases, go):
+        if x.get("other") and x["kind"] // 2 not in other_fields:
+            ng = norm(g)
+            if ng and ng[0] != "err" and len(ng[0]) > 5:
+                other_fields[x["kind"] // 2] = list(ng[0][5])
+    c.cov["other_date_fields"] = {["bill.Invoice", "bill.Order", "bill.Delivery"][k]: v for k, v in sorted(other_fields.items())}
+    if any(x.get("other") for x in cases) and len(other_fields) < 3:
+        c.report("tables-otherdates: the harness set no other date on some document type (%s): the stream is not exercising anything" % other_fields,
+                 {"machinery": "c12FillDates"}, no_input=True)
     for x, l, g, a, b in zip(cases, lines1, go, m1, m0):
         ng, n1, n0 = norm(g), norm(a), norm(b)
         if x["op"] == "invoice":       # compare percent/surcharge/rate key; the ext is an input of P
@@ -464,7 +495,7 @@ def run(c):
             cg, c1, c0 = cut(ng), cut(n1), cut(n0)
         else:
             cg, c1, c0 = ng, n1, n0
-        c.count(x["stream"] + ":" + x["op"], 1, l if x["boundary"] else None)
+        c.count(x["stream"] + ":" + x["op"], 1, (l + (" other %d-%d-%d" % x["other"] if x.get("other") else "")) if x["boundary"] else None)
         ngo_eq_shipped += cg == c0
         og = observed(x, ng)
         exp = p_expect(pub, x, go_ext_of(x, ng))
@@ -482,8 +513,14 @@ def run(c):
                 describe(x), show(og), x["key"], x["key"].split("+", 1)[0], x["cc"], x["cat"])
         if cg != c1 and p_ok:
             what = "%s: implementation `%s` differs from the model `%s` (published table agrees with the implementation)" % (describe(x), g, a)
+        if x.get("other"):
+            fields = other_fields.get(x["kind"] // 2) or []
+            what += "; every other date the document can carry (under %s) is %04d-%02d-%02d, and the tax date is the %s" % (
+                ", ".join(fields) if fields else "op_date / despatch_date / receive_date, delivery, periods, due dates, references ...",
+                *x["other"], "issue date" if x["kind"] % 2 == 0 else "value date")
         gl = line_of(x, 1, for_go=True)
         rep = {"case": l, "go_case": gl, "decoy_rows": x.get("decoys"), "case_fields": {k: x[k] for k in ("op", "kind", "cc", "cat", "key", "d", "tags", "ext")},
+               "other_dates": list(x["other"]) if x.get("other") else None,
                "implementation": g, "model_after_fix": a, "model_as_shipped": b,
                "published_table_says": sorted(map(str, exp)) if isinstance(exp, set) else exp,
                "clause": "the percentage (and surcharge) a document receives is the table value with the latest start date on or before the tax date, a value taking effect on its start date itself",
@@ -539,7 +576,11 @@ def run(c):
     c.cov["rule"] = ("exhaustive: every registered regime x category x rate key x qualifier context (none, each tag / extension "
                      "filter of the table, a foreign code, an unknown tag) x dates {start-1, start, start+1 for every start date of "
                      "the table, 5 fixed dates incl. a leap day, random dates} x {RateDef.Value, TotalCalculator, invoice by "
-                     "issue_date, invoice by value_date}; plus extended rate keys (defined first component + suffixes), keys whose "
+                     "issue_date, invoice by value_date; on start dates and fixed dates also order and delivery by issue_date / "
+                     "value_date}; plus (tables-otherdates) invoice, order and delivery by issue_date / value_date on every start date "
+                     "and the day before it, with EVERY other date field of the document type (found by walking the Go type: op_date, "
+                     "despatch_date, receive_date, delivery, periods, due dates, advances, references ...) set to the day on the other "
+                     "side of the boundary, a date before every table and random far dates; plus extended rate keys (defined first component + suffixes), keys whose "
                      "first component is not a rate of the category (`zz-extra+standard`, `bogus+standard+x`, `eqs+standard+eqs`), "
                      "unknown rate keys and unknown categories; plus random "
                      "synthetic tables (tags, extension filters, absent and invalid start dates), the validator's order test and "
